@@ -47,6 +47,8 @@ def run_rules(mod, ctx):
     ctx.inconclusive = None
     try:
         mod.run(ctx)
+        if ctx.inconclusive_rules:
+            raise AnalysisError(" | ".join(ctx.inconclusive_rules))
         ctx.check_floors()
     except AnalysisError as e:
         ctx.inconclusive = str(e)
